@@ -93,7 +93,8 @@ class Type(Scope):
         if self.parent is None:
             return False
         parent_type = self.parent.get_type()
-        return parent_type != CLASS_TYPE_ID and parent_type < BLOCK_TYPE_ID
+        # Derived types can be defined in the specification part of a BLOCK
+        return parent_type != CLASS_TYPE_ID and parent_type <= BLOCK_TYPE_ID
 
     def get_diagnostics(self):
         errors = []
